@@ -31,6 +31,10 @@ ASSUMPTIONS = [
     "PARTIAL: completeness of the primitive set (rank B = 3N-6/5), the eigenvalue threshold of _calc_U, "
     "_symmetry_inequivalent_u and convergence of the iterative back-transformation are numerical claims covered only by "
     "the implementation oracles over the generated molecules, not by a theorem",
+    "the clear_tensors theorems cover the operator alphabet of OptCoordinates (both coordinate kinds); coordinate changes made "
+    "through raw numpy operations are outside the model and exercised by oracle_stale_numpy only",
+    "the Hessian clause is read as the first-order pull-back A^T H_x A (what the code documents it computes); the second-order "
+    "term is not part of the model and the finite-difference Hessian oracle runs at stationary points only",
     "sqrt enters the Schmidt theorem as a parameter with sqrt x * sqrt x = x for 0 <= x; the Moore-Penrose equations of "
     "numpy.linalg.pinv are premises of the pull-back theorem",
     "close_to is proved for the code's actual range |q - other| <= 3 pi (one 2 pi shift)",
@@ -76,6 +80,21 @@ PINS = [
     # F. pull-back, and the step / fallback structure mirrored by oracle_step and the OAdd operation of the machine
     (_D, "DIC._update_g_from_cart_g"), (_D, "DIC._update_h_from_cart_h"), (_D, "DIC.from_cartesian"), (_D, "DIC.iadd"),
     (_D, "DIC.to"),
+    # transitive dependencies of the numerical oracles (completeness of the primitive and delocalised sets, tensors)
+    (_I, "AnyPIC.from_species"), (_I, "AnyPIC._add_bonds_from_species"), (_I, "AnyPIC._add_angles_from_species"),
+    (_I, "AnyPIC._add_dihedrals_from_species"), (_I, "AnyPIC._add_chain_dihedrals_from_species"),
+    (_I, "AnyPIC._get_ref_for_linear_angle"), (_I, "AnyPIC._get_linear_chains"), (_I, "_is_dihedral_well_defined"),
+    (_I, "PIC.get_B"), (_I, "PIC._calc_q"), (_I, "PIC.add"), (_I, "PIC.__call__"), (_I, "_FunctionOfDistances._populate_all"),
+    (_I, "InternalCoordinates.__new__"), (_I, "InternalCoordinates.__array_finalize__"),
+    (_D, "DIC._calc_U"), (_D, "_symmetry_inequivalent_u"), (_D, "_is_pure_primitive"), (_D, "DIC.cart_proj_g"),
+    (_D, "DICWithConstraints.cart_proj_g"), (_D, "DICWithConstraints.__new__"), (_D, "DICWithConstraints.__array_finalize__"),
+    (_D, "DICWithConstraints.raw"),
+    (_C, "CartesianCoordinates.__new__"), (_C, "CartesianCoordinates.__array_finalize__"), (_C, "CartesianCoordinates.to"),
+    (_C, "CartesianCoordinates.expected_number_of_dof"), (_C, "CartesianCoordinates.cart_proj_g"),
+    ("autode/opt/coordinates/primitives.py", "PrimitiveDummyLinearAngle._get_dummy_atom"),
+    ("autode/opt/coordinates/primitives.py", "PrimitiveDummyLinearAngle._evaluate"),
+    ("autode/opt/coordinates/primitives.py", "LinearAngleBase._calc_linear_bend"),
+    ("autode/opt/coordinates/primitives.py", "PrimitiveDihedralAngle._evaluate"),
 ]
 
 
@@ -280,6 +299,40 @@ def cls_key(spec):
     return spec["cls"].rstrip("~")
 
 
+def added_edge_cause(spec):
+    """why does the connected graph contain an edge that is no bond: an H-bond edge (internals.py:549-559), a joining
+    edge, or a constraint edge (internals.py:576-579)?  Decided from the graphs, not from the symptom."""
+    from autode.opt.coordinates.internals import _connect_graph_for_species
+    try:
+        s0 = dict(spec); s0["constraints"] = []
+        m0 = mol_of(s0)
+        before = {(min(i, j), max(i, j)) for i, j in m0.graph.edges}
+        mc = m0.copy(); _connect_graph_for_species(mc)
+        added = {(min(int(i), int(j)), max(int(i), int(j))) for i, j in mc.graph.edges} - before
+        sym = spec["symbols"]
+        hb = [e for e in added if (sym[e[0]] == "H") != (sym[e[1]] == "H") and {sym[e[0]], sym[e[1]]} & set(H_BOND_X)]
+        try:
+            build(s0); ok0 = True
+        except Exception:  # noqa
+            ok0 = False
+        if not ok0:
+            return "hbond-edge-in-linear-chain" if hb else "no-added-edge"
+        return "constraint-edge-in-linear-chain" if spec.get("constraints") else "no-added-edge"
+    except Exception:  # noqa
+        return "undetermined"
+
+
+def dic_incomplete_cause(klass, pic, x, n_dic, dof):
+    """the delocalised set has fewer coordinates than internal degrees of freedom: was the vector dropped by
+    _calc_U (eigenvalue selection / Schmidt) or by _symmetry_inequivalent_u?"""
+    try:
+        with np.errstate(all="ignore"):
+            n0 = klass._calc_U(pic, x).shape[1]
+    except Exception:  # noqa
+        return "_calc_U-raises"
+    return "_symmetry_inequivalent_u" if n0 >= dof else f"{klass.__name__}._calc_U"
+
+
 def oracle_primitives(spec):
     """rank of B on the internal subspace, U^T U = I, constrained primitives isolated."""
     from autode.opt.coordinates import DIC, DICWithConstraints
@@ -291,15 +344,8 @@ def oracle_primitives(spec):
         tb = traceback.extract_tb(sys.exc_info()[2])[-1]
         zero = isinstance(e, AssertionError) and tb.name in ("acos", "_evaluate")
         if zero:
-            cause = "hbond-edge-in-linear-chain"
-            if cons:
-                try:
-                    s0 = dict(spec); s0["constraints"] = []
-                    build(s0)
-                    cause = "constraint-edge-in-linear-chain"
-                except Exception:  # noqa
-                    pass
-            key = f"AnyPIC|zero-bond-angle:{cause}"
+            cause = added_edge_cause(spec)
+            key = f"AnyPIC|zero-bond-angle:{cause}:{spec['cls']}"
         else:
             key = f"AnyPIC|{type(e).__name__}:{cls_key(spec)}"
         fails.append((key,
@@ -333,7 +379,7 @@ def oracle_primitives(spec):
     info["rank_margin"] = float(margin)
     if dof > 0 and margin < 1e-9:
         rank = int((sv > 1e-9 * sv[0]).sum())
-        kcls = "distorted-linear" if spec["cls"] in ("linear~", "linear-HX~", "distorted-linear", "distorted-linear~") else spec["cls"]
+        kcls = "distorted-linear" if spec["cls"] == "distorted-linear~" else spec["cls"]
         fails.append((f"AnyPIC.from_species|rank-deficient:{kcls}",
                       f"{spec['name']}: the {len(pic)} generated primitives span only {rank} of the {dof} internal degrees of "
                       f"freedom (singular value {dof} of B on the internal subspace = {sv[dof - 1]:.2e})",
@@ -367,6 +413,12 @@ def oracle_primitives(spec):
     n = U.shape[1]
     info.update(n_dic=n, dic=dic, pic=pic, x=x, mol=m)
     err = float(np.abs(U.T @ U - np.eye(n)).max()) if n else 0.0
+    if n == 0:
+        if dof > 0:
+            fails.append((f"{klass.__name__}._calc_U|empty-delocalised-set:{spec['cls']}", f"{spec['name']}: 0 delocalised coordinates for {dof} degrees of freedom",
+                          rep(spec, kind="primitives")))
+        info["dic_rank"] = 0
+        return fails, info
     if err > 1e-8:
         fails.append((f"{klass.__name__}._calc_U|not-orthonormal:{cls_key(spec)}",
                       f"{spec['name']}: max |U^T U - I| = {err:.2e}", rep(spec, kind="primitives")))
@@ -395,7 +447,15 @@ def oracle_primitives(spec):
                           rep(spec, kind="primitives")))
     svd_dic = np.linalg.svd(np.asarray(dic.B), compute_uv=False) if n else np.array([])
     info["dic_rank"] = int((svd_dic > 1e-8 * svd_dic[0]).sum()) if n else 0
-    if cons and dof > 0 and margin >= 1e-6 and info["dic_rank"] < min(n, dof) and not any(k.startswith("DICWithConstraints._calc_U") for k, _, _ in fails):
+    if dof > 0 and margin >= 1e-6 and n < dof:
+        # the primitives are complete but the delocalised coordinates are fewer than the internal degrees of freedom
+        cause = dic_incomplete_cause(klass, pic, x, n, dof)
+        fails.append((f"{cause}|delocalised-set-incomplete:{spec['cls']}{'+constraints' if (cons and cause != '_symmetry_inequivalent_u') else ''}",
+                      f"{spec['name']}{' with distance constraints ' + str(cons) if cons else ''}: the {len(pic)} primitives span all {dof} internal "
+                      f"degrees of freedom ({'3N-5, linear' if lin else '3N-6'}) but {klass.__name__}.from_cartesian returns only {n} delocalised "
+                      f"coordinates (rank of U^T B = {info['dic_rank']}); the vectors were dropped by {cause}",
+                      rep(spec, kind="primitives")))
+    if cons and dof > 0 and margin >= 1e-6 and n > 0 and info["dic_rank"] < min(n, dof) and not any(k.startswith("DICWithConstraints._calc_U") for k, _, _ in fails):
         # Props.schmidt_loses_span_refuted: the first m eigenvectors are dropped, whatever they span
         fails.append(("DICWithConstraints._calc_U|constrained-dic-rank-deficient",
                       f"{spec['name']} with distance constraints {cons}: the primitives span all {dof} internal degrees of freedom but "
@@ -448,7 +508,7 @@ def oracle_rigid(spec, rotvec, shift):
         if bad:
             i2, i, d = bad[0]
             types = sorted({type(pc[b[0]]).__name__ for b in bad})
-            key = ("PrimitiveDummyLinearAngle|rigid-motion-near-linear" if types == ["PrimitiveDummyLinearAngle"]
+            key = (f"PrimitiveDummyLinearAngle|rigid-motion-near-linear:{cls_key(spec)}" if types == ["PrimitiveDummyLinearAngle"]
                    else f"{'+'.join(types)}|rigid-motion:{cls_key(spec)}")
             fails.append((key, f"{spec['name']}: {label}: {pc[i2]!r} = {q[i]:.6f} before and {qq[i2]:.6f} after a rigid "
                                f"rotation+translation ({len(bad)} of {len(pc)} primitives change, max {max(b[2] for b in bad):.2e})", RP))
@@ -519,12 +579,12 @@ def oracle_step(spec, direction, norm):
         qn = pic.close_to(xn, q0)
         sn = np.asarray(dic.U).T @ qn
         err = float(np.abs(sn - s_target).max())
-        if err > 1e-6:
+        if err > 1e-8:
             i = int(np.argmax(np.abs(sn - s_target)))
             fails.append((f"DIC.iadd|success-but-wrong-internals:{cls_key(spec)}",
                           f"{spec['name']}: back-transformation of a step of norm {norm} reported success but "
                           f"s_{i}(x_new) = {sn[i]:.8f}, requested {s_target[i]:.8f} (|diff| = {err:.2e})", R()))
-        if np.abs(np.asarray(new1) - s_target).max() > 1e-6 or np.abs(new1._q - qn).max() > 1e-8:
+        if np.abs(np.asarray(new1) - s_target).max() > 1e-8 or np.abs(new1._q - qn).max() > 1e-8:
             fails.append((f"DIC.iadd|stored-s-q-inconsistent:{cls_key(spec)}",
                           f"{spec['name']}: after a successful step the stored s / _q differ from the values at the new geometry", R()))
         if np.abs(np.asarray(new2._x) - np.asarray(xn)).max() > 1e-9:
@@ -534,6 +594,18 @@ def oracle_step(spec, direction, norm):
         if np.abs(np.asarray(new2._x) - x1).max() > 1e-9:
             fails.append((f"DIC.iadd|failure-not-first-order-fallback:{cls_key(spec)}",
                           f"{spec['name']}: unconverged back-transformation (allowed) did not return x + B^+ ds", R()))
+    for nw in ([new1] if ok else []) + [new2]:
+        try:
+            Bn = np.asarray(dic.U).T @ pic.get_B(nw._x)
+            okB = np.all(np.isfinite(Bn)) and np.allclose(np.asarray(nw.B), Bn, atol=1e-8 * max(1.0, np.abs(Bn).max())) and \
+                np.allclose(np.asarray(nw.B_T_inv), np.linalg.pinv(Bn), atol=1e-6 * max(1.0, np.abs(np.linalg.pinv(Bn)).max()))
+        except Exception:  # noqa
+            okB = True
+        if not okB:
+            fails.append((f"DIC.iadd|B-not-at-returned-geometry:{cls_key(spec)}",
+                          f"{spec['name']}: after a step of norm {norm} ({'converged' if ok else 'not converged, first-order estimate returned'}) "
+                          f"dic.B / dic.B_T_inv are not U^T B(x_new) and its pseudo-inverse: gradients pulled back later belong to another geometry", R()))
+            break
     for nw in ([new1] if ok else []) + [new2]:
         xc = nw.to("cart")
         if nw.e is not None or nw._g is not None or nw._h is not None or xc.e is not None or xc.g is not None or xc._h is not None:
@@ -741,8 +813,7 @@ def oracle_dihedral_step(spec, bond, start_deg, dq):
     idx = [i for i in idx if i < len(pic) and isinstance(pic[i], PrimitiveDihedralAngle) and {pic[i].o, pic[i].p} == {o, p}]
     dq_vec = np.zeros(len(pic))
     for i in idx:   # all torsions about the bond move together (sign by orientation of each)
-        sgn = 1.0 if (pic[i].m in side) == (pic[i0].m in side) else 1.0
-        dq_vec[i] = sgn * dq
+        dq_vec[i] = dq
     step = np.asarray(dic.U).T @ dq_vec
     c = dic.copy(); c.allow_unconverged_back_transform = False
     R = rep(spec, kind="dihedral-step", bond=list(bond), start_deg=start_deg, dq=dq)
@@ -1047,10 +1118,201 @@ def oracle_stale_fallback(kind, size, inplace):
     return fails, conv
 
 
+def _tensored(kind):
+    """coordinates with e, g, h (and h_inv) set"""
+    from autode.opt.coordinates import CartesianCoordinates, DIC
+    xyz = np.array([0.0, 0.0, 0.0, 0.96, 0.0, 0.0, -0.24, 0.93, 0.0])
+    if kind == "cart":
+        c = CartesianCoordinates(xyz)
+    else:
+        spec = {"name": "w", "cls": "w", "symbols": ["O", "H", "H"], "coords": xyz.reshape(3, 3).tolist(), "charge": 0, "bonds": None}
+        m, pic, x, q, B = build(spec)
+        x.e = -1.0; x.update_g_from_cart_g(np.ones(9)); x.update_h_from_cart_h(np.eye(9))
+        c = DIC.from_cartesian(x, pic)
+    n = len(c)
+    c.e = -1.0
+    c.g = np.ones(n)
+    c.h = 2.0 * np.eye(n)
+    _ = c.h_inv
+    return c
+
+
+NUMPY_OPS = {
+    # family -> list of (name, function producing the coordinates that differ from c)
+    "ufunc-result": [("d+c", lambda c: 0.1 + c), ("2*c", lambda c: 2.0 * c), ("c*2", lambda c: c * 2.0), ("-c", lambda c: -c),
+                     ("np.add(c,.1)", lambda c: np.add(c, 0.1)), ("c/2", lambda c: c / 2.0)],
+    "inplace-numpy-write": [("c*=2", lambda c: c.__imul__(2.0)), ("c.fill(1)", lambda c: (c.fill(1.0), c)[1]),
+                            ("c.flat[0]=5", lambda c: (c.flat.__setitem__(0, 5.0), c)[1]),
+                            ("np.add(c,.1,out=c)", lambda c: np.add(c, 0.1, out=c)),
+                            ("view-write", lambda c: (c.reshape(-1, 1).__setitem__((0, 0), 7.0), c)[1])],
+}
+
+
+def oracle_stale_numpy(kind, family):
+    """coordinate changes made through numpy instead of the OptCoordinates operators: the resulting (or modified)
+    coordinates differ from the ones the tensors were computed for, so e, g, h must not be carried"""
+    from autode.opt.coordinates.base import OptCoordinates
+    fails, bad = [], []
+    for name, f in NUMPY_OPS[family]:
+        c = _tensored(kind)
+        before = np.array(c, copy=True)
+        try:
+            r = f(c)
+        except Exception:  # noqa   (an operation that is rejected cannot leave stale tensors)
+            continue
+        if not isinstance(r, OptCoordinates) or np.allclose(np.asarray(r), before):
+            continue
+        kept = [nm for nm, v in (("e", r._e), ("g", r._g), ("h", r._h), ("h_inv", r._h_inv)) if v is not None]
+        if kept:
+            bad.append((name, kept))
+    if bad:
+        fails.append((f"OptCoordinates|stale-tensors:{family}:{kind}[{','.join(b[0] for b in bad)}]",
+                      f"{kind}: coordinates with e, g, h set; after " + "; ".join(f"`{nm}` the changed coordinates still carry {'/'.join(k)}" for nm, k in bad)
+                      + " (OptCoordinates.__array_finalize__ copies _e/_g/_h/_h_inv, base.py:44-56; numpy writes bypass __setitem__)",
+                      {"kind": "stale-numpy", "coords": kind, "family": family}))
+    return fails
+
+
+def oracle_dic_setitem_cart():
+    """d[k] = v on a DIC clears d's tensors but the Cartesian coordinates it carries (and cart_proj_g) keep theirs"""
+    fails = []
+    d = _tensored("dic")
+    d[0] = float(d[0]) + 0.1
+    cart = d.to("cart")
+    kept = [nm for nm, v in (("e", cart.e), ("g", cart.g), ("h", cart._h)) if v is not None]
+    if d.cart_proj_g is not None:
+        kept.append("cart_proj_g")
+    if d._e is not None or d._g is not None or d._h is not None:
+        kept.append("internal tensors")
+    if kept:
+        fails.append(("DIC.__setitem__|cartesian-tensors-kept",
+                      f"DIC of water with e, g, h set: after d[0] = d[0] + 0.1 the internal values changed but d.to('cart') keeps {', '.join(kept)} "
+                      f"(and the Cartesian coordinates are not updated)", {"kind": "stale-dic-setitem"}))
+    return fails
+
+
+def oracle_lambda_alias(step_lambda):
+    """taking a step FROM constrained coordinates must not change them: copy() shares _lambda by reference
+    (__array_finalize__) and DICWithConstraints.iadd updates it in place (dic.py:422)"""
+    from autode.opt.coordinates import DICWithConstraints
+    fails = []
+    spec = {"name": "water", "cls": "w", "symbols": ["O", "H", "H"], "charge": 0, "bonds": None,
+            "coords": [[-0.0011, 0.3631, 0.0], [-0.825, -0.1819, 0.0], [0.8261, -0.1812, 0.0]], "constraints": [(0, 1, 1.1)]}
+    m, pic, x, q, B = build(spec)
+    x.update_g_from_cart_g(np.linspace(-0.1, 0.1, 9))
+    d = DICWithConstraints.from_cartesian(x, pic)
+    lam0, g0, raw0 = np.array(d._lambda, copy=True), np.array(d.g, copy=True), np.array(d.raw, copy=True)
+    n = len(d)
+    new = d + np.concatenate([np.full(n, 0.01), [step_lambda]])
+    R = {"kind": "lambda-alias", "step_lambda": step_lambda}
+    if not np.allclose(new._lambda, lam0 + step_lambda):
+        fails.append(("DICWithConstraints.iadd|multiplier-not-updated", f"new multipliers {new._lambda} != {lam0} + {step_lambda}", R))
+    if not np.allclose(d._lambda, lam0) or not np.allclose(d.raw, raw0) or not np.allclose(d.g, g0):
+        fails.append(("DICWithConstraints.iadd|step-mutates-old-lambda",
+                      f"water with constraint (0,1)=1.1: new = d + step with a multiplier part {step_lambda} changed the OLD coordinates: "
+                      f"d._lambda {lam0.tolist()} -> {np.asarray(d._lambda).tolist()}, d.g[{n - 1}] {g0[n - 1]:.4f} -> {d.g[n - 1]:.4f} "
+                      f"(copy() shares _lambda by reference, dic.py:422 adds in place)", R))
+    return fails
+
+
+def oracle_constrained_gh(spec, seed):
+    """gradient and Hessian of DICWithConstraints for a pair potential and random multipliers, against the
+    definitions written out with numpy: g = (A^T g_x with -lambda_i on the constrained coordinates, -C_i(x)),
+    h = [[A^T H_x A, -E], [-E^T, 0]] (E couples multiplier i with coordinate n-m+i), h symmetric"""
+    from autode.opt.coordinates import CartesianCoordinates, DICWithConstraints
+    from autode.opt.coordinates.internals import AnyPIC
+    fails = []
+    if not spec.get("constraints"):
+        return fails
+    rs = np.random.RandomState(seed)
+    xyz = np.array(spec["coords"]); n_at = len(xyz)
+    r = np.linalg.norm(xyz[:, None, :] - xyz[None, :, :], axis=2)
+    kf = rs.uniform(0.5, 1.5, size=(n_at, n_at)); kf = (kf + kf.T) / 2
+    eps = rs.uniform(-0.05, 0.05, size=(n_at, n_at)); eps = (eps + eps.T) / 2
+    try:
+        m = mol_of(spec); pic = AnyPIC.from_species(m); x = CartesianCoordinates(m.coordinates)
+        e0, gx, hx = pair_potential(xyz, r * (1 + eps), kf)
+        x.e = e0; x.update_g_from_cart_g(gx); x.update_h_from_cart_h(hx)
+        dic = DICWithConstraints.from_cartesian(x, pic)
+    except Exception:  # noqa
+        return fails
+    n, mc = len(dic), dic.n_constraints
+    if mc == 0 or mc > n or not np.all(np.isfinite(np.asarray(dic.U))):
+        return fails
+    lam = rs.uniform(-1, 1, size=mc)
+    dic._lambda = lam.copy()
+    A = np.linalg.pinv(np.asarray(dic.B))
+    cp = [p for p in pic if p.is_constrained]
+    g_want = np.concatenate([A.T @ gx, [-(p(x) - p._value) for p in cp]])
+    g_want[n - mc:n] -= lam
+    h_want = np.zeros((n + mc, n + mc)); h_want[:n, :n] = A.T @ hx @ A
+    for i in range(mc):
+        h_want[n - mc + i, n + i] = h_want[n + i, n - mc + i] = -1.0
+    g, h = np.asarray(dic.g), np.asarray(dic.h)
+    R = rep(spec, kind="constrained-gh", seed=seed)
+    sc = max(1.0, np.abs(g_want).max())
+    if g.shape != g_want.shape or np.abs(g - g_want).max() > 1e-8 * sc:
+        i = int(np.argmax(np.abs(g - g_want))) if g.shape == g_want.shape else -1
+        fails.append((f"DICWithConstraints.g|not-lagrangian-gradient:{cls_key(spec)}",
+                      f"{spec['name']} with constraints {spec['constraints']}: g[{i}] = {g[i] if i >= 0 else g.shape} but the Lagrangian gradient is {g_want[i] if i >= 0 else g_want.shape}", R))
+    sh = max(1.0, np.abs(h_want).max())
+    if h.shape != h_want.shape or np.abs(h - h_want).max() > 1e-7 * sh or np.abs(h - h.T).max() > 1e-9 * sh:
+        fails.append((f"DICWithConstraints.h|not-lagrangian-hessian:{cls_key(spec)}",
+                      f"{spec['name']} with constraints {spec['constraints']}: assembled Hessian differs from [[A^T H A, -E], [-E^T, 0]] by "
+                      f"{np.abs(h - h_want).max() if h.shape == h_want.shape else h.shape}", R))
+    return fails
+
+
+def oracle_default_generator(spec, which, direction, norm):
+    """the default primitive generators (all pairwise inverse distances: DIC.from_cartesian(x) / x.to('dic'); all distances)
+    on non-planar, non-linear molecules: complete (rank 3N-6), orthonormal, invariant, and a step transforms back"""
+    from autode.opt.coordinates import CartesianCoordinates, DIC
+    from autode.opt.coordinates.internals import PrimitiveDistances, PrimitiveInverseDistances
+    from autode.exceptions import CoordinateTransformFailed
+    fails = []
+    xyz = np.array(spec["coords"])
+    n_at = len(xyz)
+    dof = 3 * n_at - 6
+    x = CartesianCoordinates(xyz)
+    R = rep(spec, kind="default-generator", which=which, direction=[float(v) for v in direction], norm=norm)
+    key = lambda w: f"DIC.from_cartesian({which})|{w}:{cls_key(spec)}"  # noqa
+    try:
+        if which == "inverse-distances":
+            dic = x.to("dic")
+        else:
+            dic = DIC.from_cartesian(x, PrimitiveDistances.from_cartesian(x))
+    except Exception as e:  # noqa
+        fails.append((key(type(e).__name__), f"{spec['name']}: {which} DIC raised {type(e).__name__}: {str(e)[:90]}", R))
+        return fails
+    pic = dic.primitives
+    n = len(dic)
+    if len(pic) != n_at * (n_at - 1) // 2:
+        fails.append((key("primitive-count"), f"{spec['name']}: {len(pic)} primitives for {n_at} atoms", R))
+    rank = int(np.linalg.matrix_rank(np.asarray(dic.B), tol=1e-8)) if n else 0
+    if n != dof or rank != dof:
+        cause = dic_incomplete_cause(DIC, pic, x, n, dof) if n < dof else "rank"
+        fails.append((f"{cause}|delocalised-set-incomplete:{which}:{spec['cls']}",
+                      f"{spec['name']}: {which} DIC has {n} delocalised coordinates of rank {rank} for 3N-6 = {dof} (dropped by {cause})", R))
+    if n and np.abs(np.asarray(dic.U).T @ np.asarray(dic.U) - np.eye(n)).max() > 1e-8:
+        fails.append((key("not-orthonormal"), f"{spec['name']}: U^T U != I", R))
+    if fails or n == 0:
+        return fails
+    d = np.array(direction[:n], dtype=float); d = d / np.linalg.norm(d) * norm
+    c = dic.copy(); c.allow_unconverged_back_transform = False
+    try:
+        new = c + d
+    except CoordinateTransformFailed:
+        return fails
+    sn = np.asarray(dic.U).T @ pic(new._x)
+    if np.abs(sn - (np.asarray(dic) + d)).max() > 1e-8:
+        fails.append((key("success-but-wrong-internals"), f"{spec['name']}: step of norm {norm}: max |s(x_new)-s_target| = {np.abs(sn - (np.asarray(dic) + d)).max():.2e}", R))
+    return fails
+
+
 # ---------------------------------------------------------------------------------------------
 # clear_tensors machine on the implementation
 # ---------------------------------------------------------------------------------------------
-OPS = ["OSetItem", "OAdd", "OSub", "OAddDiscard", "OIAdd", "OISub", "OClear", "OCopy", "OSetE true", "OSetE false",
+OPS = ["OSetItem", "OAdd", "OSub", "OAddDiscard", "OIAdd", "OISub", "OIaddCall", "OSetItemTiny", "OAddTiny", "OClear", "OCopy", "OSetE true", "OSetE false",
        "OSetG true", "OSetG false", "OSetH true", "OSetH false", "OSetHinv true", "OSetHinv false", "OGetH", "OGetHinv"]
 
 
@@ -1075,6 +1337,12 @@ def run_machine(kind, ops):
             c[0] = float(c[0]) + 1e-3; ver += 1
         elif op == "OAdd":
             c = c + d; ver += 1
+        elif op == "OIaddCall":     # the primitive in-place step, called directly
+            c.iadd(d); ver += 1
+        elif op == "OSetItemTiny":  # a change far below numpy.allclose's default tolerances is still a change
+            c[n - 1] = float(c[n - 1]) * (1.0 + 1e-9) + 1e-12; ver += 1
+        elif op == "OAddTiny":
+            c = c + np.full(n, 1e-10); ver += 1
         elif op == "OAddBig":       # dic only: back-transformation does not converge, first-order fallback (allowed)
             c = c + np.full(n, 3.0); ver += 1
         elif op == "OIAddBig":
@@ -1125,7 +1393,13 @@ def oracle_stale(kind, ops):
     """after an op list ending in a coordinate change the public e, g, h must be None"""
     fails = []
     ver, e, g, h, hi, oh = run_machine(kind, ops)
-    if e is not None or g is not None or h is not None:
+    if (e is not None or g is not None or h is not None or oh is not None) and kind == "cart" and ops[-1] == "OIaddCall":
+        # Props.cartesian_iadd_keeps_tensors_refuted
+        fails.append(("CartesianCoordinates.iadd|keeps-tensors",
+                      f"cart: after {ops} (x.iadd(d) called directly, cartesian.py:79-80 = ndarray.__iadd__) the coordinates moved "
+                      f"(version {ver}) but _e/_g/_h still hold the tensors of version {e}/{g}/{h}",
+                      {"kind": "stale", "coords": kind, "ops": ops}))
+    elif e is not None or g is not None or h is not None:
         fails.append((f"OptCoordinates.clear_tensors|stale-field:{kind}",
                       f"{kind}: after {ops} the fields _e/_g/_h are {e}/{g}/{h} (coordinate version {ver})",
                       {"kind": "stale", "coords": kind, "ops": ops}))
@@ -1278,8 +1552,8 @@ def corr_machine(ctx, n_cart, n_dic, add):
             if kind == "dic" and ctx.rng.random() < 0.6:
                 ops.insert(ctx.rng.randint(0, len(ops)), ctx.rng.choice(["OAddBig", "OIAddBig"]))
             ver, e, g, h, hi, oh = run_machine(kind, ops)
-            cops = [{"OAddBig": "OAdd", "OIAddBig": "OIAdd"}.get(o, o) for o in ops]
-            term = (f"check_machine {coq_list(['(' + o + ')' if ' ' in o else o for o in cops])} {ver} {opt_nat(e)} {opt_nat(g)} "
+            cops = [{"OAddBig": "OAdd", "OIAddBig": "OIAdd", "OSetItemTiny": "OSetItem", "OAddTiny": "OAdd"}.get(o, o) for o in ops]
+            term = (f"check_machine {'KCart' if kind == 'cart' else 'KDic'} {coq_list(['(' + o + ')' if ' ' in o else o for o in cops])} {ver} {opt_nat(e)} {opt_nat(g)} "
                     f"{opt_nat(h)} {opt_nat(hi)} {opt_nat(oh)}")
             ctx.hist("model-clear_tensors", kind)
             add("model-clear_tensors", term, {"kind": "machine", "coords": kind, "ops": ops}, (kind, tuple(ops)), len(ops) > 1)
@@ -1338,7 +1612,7 @@ def corr_pullback(ctx, n_cases, add):
 # the check
 # =============================================================================================
 QUICK_NAMES = ["CO2", "HCN", "HCCH", "CS2", "diyne-distorted", "CO2-bent175", "allene", "ketene", "BF3", "BF3-pyramidal",
-               "C4-ring", "OO", "C=O", "CC#N", "water2", "HF2", "NaCl", "LiF-HF", "Na-water"]
+               "C4-ring", "OO", "C=O", "CC#N", "water2", "water3", "HF2", "NaCl", "LiF-HF", "Na-water"]
 DIHEDRAL_CASES = [("OO", (0, 1)), ("CC", (0, 1)), ("CCO", (0, 1))]
 
 
@@ -1364,6 +1638,8 @@ def impl_oracles(ctx, full):
         for vi, v in enumerate(variants):
             nat = len(v["symbols"])
             con_sets = [[]] + [random_constraints(v, rs, k) for k in ((1, 2) if (full and not big) else (1 + (vi % 2),))]
+            if not full and vi == 1 and nat > 5:
+                con_sets = [[]]          # quick: the perturbed variant of the larger molecules runs unconstrained only
             if vi == 0 and nat >= 3 and v["cls"] in ("linear", "planar-cumulene"):
                 # directed: a constraint across a linear a-b-c arrangement
                 con_sets.append([(0, 2, round(float(np.linalg.norm(np.array(v["coords"][0]) - np.array(v["coords"][2]))), 6))])
@@ -1401,11 +1677,15 @@ def impl_oracles(ctx, full):
                         record(fs2, "impl-step", ck)
                         ctx.count("impl-step", ck + (norm,), nontrivial=nat >= 3)
                         ctx.hist("impl-step", f"norm={norm} " + ("converged" if ok else "no-step" if ok is None else "not-converged"))
-                if ci == 0:
+                if cons:
+                    record(oracle_constrained_gh(s, int(rs.randint(0, 10 ** 6))), "impl-pullback", ck + ("lagrangian",))
+                    ctx.count("impl-pullback", ck + ("lagrangian",), nontrivial=nat >= 3)
+                if ci <= 1:
                     rot = rs.normal(size=3).round(3).tolist()
                     sh = rs.uniform(-2, 2, size=3).round(3).tolist()
                     record(oracle_rigid(s, rot, sh), "impl-rigid", ck)
                     ctx.count("impl-rigid", ck, nontrivial=nat >= 3)
+                if ci == 0:
                     for stationary in ((False, True) if (full and not big) else ((vi == 0),)):
                         sd = int(rs.randint(0, 10 ** 6))
                         record(oracle_pullback(s, sd, stationary), "impl-pullback", ck)
@@ -1481,6 +1761,28 @@ def impl_oracles(ctx, full):
                 record(fs, "impl-stale", (kind, size, inplace))
                 ctx.count("impl-stale", ("fallback", kind, size, inplace))
                 ctx.hist("impl-stale", f"large-step {'converged' if conv else 'fallback' if conv is False else 'n/a'}")
+    # coordinate changes that bypass the OptCoordinates operators; constrained steps with a multiplier part
+    for kind in ("cart", "dic"):
+        for fam in NUMPY_OPS:
+            record(oracle_stale_numpy(kind, fam), "impl-stale", ("numpy", kind, fam))
+            ctx.count("impl-stale", ("numpy", kind, fam))
+    record(oracle_dic_setitem_cart(), "impl-stale", ("dic-setitem",))
+    ctx.count("impl-stale", ("dic-setitem",))
+    for sl in (0.5, -0.25):
+        record(oracle_lambda_alias(sl), "impl-stale", ("lambda", sl))
+        ctx.count("impl-stale", ("lambda", sl))
+    # default primitive generators (all inverse distances / all distances) on non-planar, non-linear molecules
+    zig = {"name": "C4-zigzag", "cls": "chain", "symbols": ["C"] * 4, "charge": 0, "bonds": None, "constraints": [],
+           "coords": [[0.0, 0.0, 0.0], [1.3, 0.8, 0.0], [2.6, 0.0, 0.3], [3.9, 0.8, 1.0]]}
+    dg = [zig] + [m for m in base_molecules(full) if m["name"] in (("OO", "water2", "BF3-pyramidal") if not full else
+                                                                   ("OO", "water2", "BF3-pyramidal", "allene", "CCO", "CH4-H2O"))]   # non-planar only
+    rs_dg = np.random.RandomState(11)      # fixed: the class of a finding must not depend on VERIF_SEED
+    for base in dg:
+        for v in ((base, perturbed(base, rs_dg, 0.05)) if (full or base["name"] in ("C4-zigzag", "BF3-pyramidal")) else (base,)):
+            for which in ("inverse-distances", "distances"):
+                fsd = oracle_default_generator(v, which, rs.normal(size=3 * len(v["symbols"])).round(4).tolist(), 0.05)
+                record(fsd, "impl-default-generator", (v["name"], which))
+                ctx.count("impl-default-generator", (v["name"], which), sample={"molecule": v["name"], "generator": which})
     # dihedral continuity through +-180 degrees (and the winding beyond the code's range)
     for smi, bond in DIHEDRAL_CASES[:None if full else 2]:
         s, p, b = rdkit_geom(smi)
@@ -1494,12 +1796,12 @@ def impl_oracles(ctx, full):
             record(oracle_dihedral_step(spec, bond, start, dq), "impl-dihedral", (smi, start, dq))
             ctx.count("impl-dihedral", (smi, "step", start, dq))
     # stale tensors on the implementation (every op list ends in a coordinate change)
-    changes = ["OSetItem", "OAdd", "OSub", "OIAdd", "OISub"]
+    changes = ["OSetItem", "OAdd", "OSub", "OIAdd", "OISub", "OIaddCall", "OSetItemTiny", "OAddTiny"]
     setters = [["OSetE true", "OSetG true", "OSetH true"], ["OSetE true", "OSetG true", "OSetH true", "OGetHinv"],
                ["OSetHinv true"], ["OSetH true", "OCopy"], ["OSetG true", "OAddDiscard"]]
     for kind in ("cart", "dic"):
         for pre in setters:
-            for ch in (changes if (full or kind == "cart") else changes[:2]):
+            for ch in (changes if (full or kind == "cart") else ["OSetItem", "OAdd", "OIaddCall", "OSetItemTiny", "OAddTiny"]):
                 ops = pre + [ch]
                 record(oracle_stale(kind, ops), "impl-stale", (kind, tuple(ops)))
                 ctx.count("impl-stale", (kind, tuple(ops)))
@@ -1605,6 +1907,16 @@ def replay(ctx, obj):
         fs = oracle_numbering(r["n_c"], r["labels"])
     elif kind == "stale-fallback":
         fs, _ = oracle_stale_fallback(r["coords"], r["size"], r["inplace"])
+    elif kind == "stale-numpy":
+        fs = oracle_stale_numpy(r["coords"], r["family"])
+    elif kind == "stale-dic-setitem":
+        fs = oracle_dic_setitem_cart()
+    elif kind == "lambda-alias":
+        fs = oracle_lambda_alias(r["step_lambda"])
+    elif kind == "constrained-gh":
+        fs = oracle_constrained_gh(spec, r["seed"])
+    elif kind == "default-generator":
+        fs = oracle_default_generator(spec, r["which"], r["direction"], r["norm"])
     elif kind == "stale":
         fs = oracle_stale(r["coords"], r["ops"])
     elif kind == "machine":
@@ -1632,11 +1944,19 @@ MANIFEST = {
                    "rows, for every dimension, over any ordered field with an exact square root, provided no zero vector arises; "
                    "g_s = A^T g_x and H_s = A^T H_x A satisfy B^T g_s = P g_x, B^T H_s B = P H_x P with P = A B a symmetric "
                    "idempotent (Moore-Penrose equations as premises), unique when B A = I; after any operation sequence ending in "
-                   "a coordinate change _e = _g = _h = _h_inv = None and the getter .h returns None, and no stored tensor is ever older "
-                   "than the coordinates; the Schmidt output need not span the input columns (refuted); active and inactive "
+                   "a coordinate change made through the OptCoordinates operators (c[k]=v, +, -, +=, -=; machine composed of copy / "
+                   "clear_tensors / kind-specific primitive iadd, for Cartesian and DIC) _e = _g = _h = _h_inv = None and .h returns None; "
+                   "no stored tensor is ever stale except after a direct CartesianCoordinates.iadd call (refuted, finding); the Schmidt "
+                   "output need not span the input columns (refuted); active and inactive "
                    "indexes partition 0..n+m-1 and the assembled Lagrangian Hessian is the symmetric Jacobian of the assembled "
                    "gradient.  The model is tied to /repo by correspondence streams on every run."),
-    "level_note": ("NOT proved, only exercised by implementation oracles over the molecule generator (numpy as oracle): completeness "
+    "level_note": ("The stale-tensor theorems speak about the operator alphabet of OptCoordinates only: numpy operations that bypass it "
+                   "(ufunc results, *=, fill, views) and DIC.__setitem__'s Cartesian copy are exercised on the implementation only and "
+                   "are findings.  The Hessian theorem is the algebraic identity of the first-order pull-back A^T H A; the code omits "
+                   "the dB/dx.g term (dic.py:177 NOTE), so H_s is compared with finite differences at stationary points only.  "
+                   "NOT proved, only exercised by implementation oracles over the molecule generator (numpy as oracle): completeness "
+                   "of the delocalised set (len(DIC) = 3N-6/5 with the cause of a shortfall attributed to _calc_U or "
+                   "_symmetry_inequivalent_u), the default inverse-distance / distance generators on non-planar molecules, completeness "
                    "of the primitive set (rank B = 3N-6/5), the eigenvalue threshold of _calc_U, _symmetry_inequivalent_u, "
                    "convergence of the iterative back-transformation (success => |s(x_new)-s_target| < 1e-6, failure => exception "
                    "iff not allowed), rigid-motion invariance of the primitive values, dihedral continuity, g/H against finite "
